@@ -22,34 +22,46 @@ import (
 	"github.com/codelaboratoryltd/bng/pkg/allocator"
 )
 
+// fstore fails exactly the failAt-th store operation (Get / Put / Delete, counted from 1) issued
+// since the counter was reset, i.e. of the current allocator call; hit records which kind it was.
 type fstore struct {
-	data             map[string][]byte
-	order            []string
-	failPut, failDel bool
-	puts, dels       int
+	data   map[string][]byte
+	order  []string
+	failAt int
+	nops   int
+	hit    string
+}
+
+func (s *fstore) arm(k int) { s.failAt, s.nops, s.hit = k, 0, "" }
+func (s *fstore) fault(kind string) bool {
+	s.nops++
+	if s.failAt > 0 && s.nops == s.failAt {
+		s.failAt, s.hit = 0, kind
+		return true
+	}
+	return false
 }
 
 var errInjected = errors.New("injected store failure")
 
 func (s *fstore) Get(ctx context.Context, key string) ([]byte, error) {
+	if s.fault("get") {
+		return nil, errInjected
+	}
 	if v, ok := s.data[key]; ok {
 		return v, nil
 	}
 	return nil, errors.New("key not found")
 }
 func (s *fstore) Put(ctx context.Context, key string, value []byte) error {
-	s.puts++
-	if s.failPut {
-		s.failPut = false
+	if s.fault("put") {
 		return errInjected
 	}
 	s.data[key] = append([]byte(nil), value...)
 	return nil
 }
 func (s *fstore) Delete(ctx context.Context, key string) error {
-	s.dels++
-	if s.failDel {
-		s.failDel = false
+	if s.fault("del") {
 		return errInjected
 	}
 	delete(s.data, key)
@@ -172,7 +184,7 @@ func distStats(al, tot uint64, util float64) string {
 	return fmt.Sprintf("RStats %d %d %s %s", al, tot, r.Num().String(), r.Denom().String())
 }
 
-// Op fields used: K (alloc rel renew get stats adv restart), H, PL (1 = the store call fails), A unused.
+// Op fields used: K (alloc allocm rel renew get stats adv restart), H, PL (k > 0: the k-th store operation of the call fails), A unused.
 func runDist(c Case) vh.Case {
 	d := &distRun{c: c, st: &fstore{data: map[string][]byte{}}}
 	if err := d.newAlloc(); err != nil {
@@ -187,44 +199,61 @@ func runDist(c Case) vh.Case {
 		tags["mode:session"] = true
 	}
 	for _, o := range c.Ops {
-		fail := o.PL == 1
+		// o.PL = k > 0: the k-th store operation of this call fails. The Model's oracle flags say which
+		// of the operations the code on the unchanged tree issues was hit (Allocate / AllocateWithMAC:
+		// the Put; Release: the Delete; Renew: the Get, the Put); a fault that hits an operation the
+		// Model does not know (another Get, a second Put) leaves the flags false: the Model then
+		// answers as if nothing failed and the monitor judges what the implementation did.
 		tags["op:"+o.K] = true
+		if o.PL > 0 {
+			tags[fmt.Sprintf("fault-at:%d", o.PL)] = true
+		}
+		d.st.arm(o.PL)
 		switch o.K {
-		case "alloc":
-			d.st.failPut = fail
-			p, err := d.da.Allocate(ctx, dsub(o.H))
-			if fail && !d.st.failPut {
-				tags["fail:put-hit"] = true
+		case "alloc", "allocm":
+			var p *net.IPNet
+			var err error
+			if o.K == "allocm" {
+				p, err = d.da.AllocateWithMAC(ctx, dsub(o.H), macOf(o.H))
+			} else {
+				p, err = d.da.Allocate(ctx, dsub(o.H))
 			}
-			d.st.failPut = false
+			hit, first := d.st.hit, d.st.nops
+			d.st.arm(0)
+			if hit != "" {
+				tags["fail:"+hit+"-hit"] = true
+			}
 			ret := ""
 			if err != nil {
 				ret = fmt.Sprintf("RErr %d", distErr(err))
 			} else {
 				ret = "RUnit " + intOfIP(p.IP, c.Bits).String()
 			}
-			d.emit(fmt.Sprintf("DAlloc %d false %s", o.H, vh.Bool(fail)), ret)
+			d.emit(fmt.Sprintf("DAlloc %d %s %s", o.H, vh.Bool(o.K == "allocm"), vh.Bool(hit == "put" && first == 1)), ret)
 		case "rel":
-			d.st.failDel = fail
 			err := d.da.Release(ctx, dsub(o.H))
-			if fail && !d.st.failDel {
-				tags["fail:del-hit"] = true
+			hit, first := d.st.hit, d.st.nops
+			d.st.arm(0)
+			if hit != "" {
+				tags["fail:"+hit+"-hit"] = true
 			}
-			d.st.failDel = false
 			ret := "ROk"
 			if err != nil {
 				ret = fmt.Sprintf("RErr %d", distErr(err))
 			}
-			d.emit(fmt.Sprintf("DRelease %d %s", o.H, vh.Bool(fail)), ret)
+			d.emit(fmt.Sprintf("DRelease %d %s", o.H, vh.Bool(hit == "del" && first == 1)), ret)
 		case "renew":
-			d.st.failPut = fail
 			err := d.da.Renew(ctx, dsub(o.H))
-			d.st.failPut = false
+			hit, n := d.st.hit, d.st.nops
+			d.st.arm(0)
+			if hit != "" {
+				tags["fail:"+hit+"-hit"] = true
+			}
 			ret := "ROk"
 			if err != nil {
 				ret = fmt.Sprintf("RErr %d", distErr(err))
 			}
-			d.emit(fmt.Sprintf("DRenew %d false %s", o.H, vh.Bool(fail)), ret)
+			d.emit(fmt.Sprintf("DRenew %d %s %s", o.H, vh.Bool(hit == "get" && n == 1), vh.Bool(hit == "put" && n == 2)), ret)
 		case "get":
 			ret := "RNone"
 			if p, ok := d.da.Get(dsub(o.H)); ok && p != nil {
@@ -311,8 +340,10 @@ func genDist(r *vh.Rng, th bool) []Case {
 			for len(base) < n {
 				h := rr.Intn(4)
 				switch x := rr.Intn(20); {
-				case x < 9:
+				case x < 5:
 					base = append(base, Op{K: "alloc", H: h})
+				case x < 9:
+					base = append(base, Op{K: "allocm", H: h})
 				case x < 15:
 					base = append(base, Op{K: "rel", H: h})
 				case x < 16 && lease:
@@ -332,25 +363,34 @@ func genDist(r *vh.Rng, th bool) []Case {
 			}
 			suffix = append(suffix, Op{K: "stats"}, Op{K: "rel", H: 4}, Op{K: "alloc", H: 3}, Op{K: "stats"})
 			c.Univ = 4 + capU + 1
-			mk := func(failAt int, origin string) {
+			mk := func(failAt, k int, origin string) {
 				v := c
 				v.Origin = origin
 				for i, o := range base {
 					if i == failAt {
-						o.PL = 1
+						o.PL = k
 					}
 					v.Ops = append(v.Ops, o)
-					if i == failAt && rr.Bool() { // look at the damage before the reload, too
-						v.Ops = append(v.Ops, Op{K: "stats"})
+					if i == failAt {
+						// look at the damage before the reload, too: Stats, and the same call again without a fault
+						if rr.Bool() {
+							v.Ops = append(v.Ops, Op{K: "stats"})
+						}
+						if rr.Bool() {
+							o.PL = 0
+							v.Ops = append(v.Ops, o, Op{K: "stats"})
+						}
 					}
 				}
 				v.Ops = append(v.Ops, suffix...)
 				out = append(out, v)
 			}
-			mk(-1, "no-failure")
+			mk(-1, 0, "no-failure")
 			for i, o := range base {
-				if o.K == "alloc" || o.K == "rel" || o.K == "renew" {
-					mk(i, "fail-at-every-call")
+				if o.K == "alloc" || o.K == "allocm" || o.K == "rel" || o.K == "renew" {
+					for k := 1; k <= 3; k++ { // the k-th store operation of that call fails
+						mk(i, k, "fail-at-every-call")
+					}
 				}
 			}
 		}
